@@ -234,7 +234,8 @@ end
 /-! ### the composition -/
 
 /-- the default transformer list keeps the store invariant -/
-theorem paragraphTransformers_keep (guard : Bool) : PTsKeep (paragraphTransformers guard) := by
+theorem paragraphTransformers_keep {I : GM.Blocks.St → Prop} [Frame I] (guard : Bool) :
+    PTsKeep I (paragraphTransformers guard) := by
   intro pt hpt n
   simp only [paragraphTransformers, List.mem_singleton] at hpt
   subst hpt
@@ -246,6 +247,11 @@ theorem paragraphTransformers_keep (guard : Bool) : PTsKeep (paragraphTransforme
 theorem blockPhase_headOK (guard : Bool) (src : Bytes) (st : GM.Blocks.St) (h : blockPhase guard src = .ok st) :
     HeadOK st :=
   runT_headOK (paragraphTransformers_keep guard) src st h
+
+/-- node 0 of every store the block phase returns is the Document -/
+theorem blockPhase_rootDoc (guard : Bool) (src : Bytes) (st : GM.Blocks.St) (h : blockPhase guard src = .ok st) :
+    RootDoc st :=
+  runT_rootDoc (paragraphTransformers_keep guard) src st h
 
 /-- from `BlockStoreOK` of the store to `nodeInv` of the rendered tree -/
 theorem docTree_inv_of_store (rc : RCfg) (guard : Bool) (env : GM.Inl.Env) (src : Bytes) (st : GM.Blocks.St)
